@@ -51,7 +51,8 @@ Inductive zop :=
 | ZLin (code : Z) (a b : nat) (m : lmode) (refused : Z)   (* 0 matmul, 1 matvec, 2 outer; refused: 0 no, 1 err, 2 panic *)
 | ZInner (a b : nat) (refused : Z)
 | ZTrace (a : nat) (refused : Z)
-| ZTensorMul (a b : nat) (axesA axesB : list Z) (refused : Z).
+| ZTensorMul (a b : nat) (axesA axesB : list Z) (refused : Z)
+| ZCopyTo (src dst : nat).                    (* src.CopyTo(dst), dense_matop.go *)
 
 Definition zred (code : Z) : Z -> Z -> Z :=
   if code =? 0 then Z.add else if code =? 1 then Z.min else Z.max.
@@ -308,6 +309,15 @@ Definition zstep_model (σ : store Z) (o : zop) : store Z * outcome Z :=
     | Ok v => (σ, RVal Z v) | Err => (σ, RErr Z) | Panic => (σ, RPanic Z)
     end
   | ZTensorMul a b axesA axesB _ => ztensormul σ a b axesA axesB
+  | ZCopyTo s d =>
+    (* other == t: nothing; sizes differ: error; otherwise tensor.Copy(other, t) *)
+    match get_t Z σ s, get_t Z σ d with
+    | Some ds, Some dd =>
+      if (s =? d)%nat then (σ, RUnit Z)
+      else if negb (size (shp (d_ap ds)) =? size (shp (d_ap dd))) then (σ, RErr Z)
+      else step_model Z 0 σ (OCopy Z d s)
+    | _, _ => (σ, RPanic Z)
+    end
   end.
 
 (* what reduce() leaves in the caller's axes slice *)
@@ -451,6 +461,17 @@ Definition zstep_spec (ς : sstate Z) (o : zop) : option (sstate Z * outcome Z) 
       | Some v => Some (ς, RVal Z v)
       | None => Some (ς, RErr Z)
       end
+    | _, _ => None
+    end
+  | ZCopyTo s d =>
+    (* different sizes are refused; equal shapes: the destination holds the source's logical
+       elements and nothing else changes; equal sizes but different shapes: not specified *)
+    match sget Z ς s, sget Z ς d with
+    | Some x, Some y =>
+      if (s =? d)%nat then Some (ς, RUnit Z)
+      else if negb (size (s_shape x) =? size (s_shape y)) then Some (ς, RErr Z)
+      else if negb (list_eqb (s_shape x) (s_shape y)) then None
+      else step_spec Z 0 ς (OCopy Z d s)
     | _, _ => None
     end
   | ZTensorMul a b axesA axesB refused =>
@@ -600,6 +621,7 @@ Definition zguard (σ : store Z) (o : zop) : gclass :=
     | d :: _ => guard_read d
     | [] => if existsb (fun d => d_view d || is_nc (ord (d_ap d)) || is_some (d_old d)) (tens [a; b]) then GView else GOk
     end
+  | ZCopyTo s d => guard_op Z σ (OCopy Z d s)
   | ZTensorMul a b _ _ _ =>
     match filter (fun d => match guard_read d with GOk => false | _ => true end) (tens [a; b]) with
     | d :: _ => guard_read d
